@@ -90,9 +90,11 @@ def base_specs(ctx):
         s["scaler"] = 2.0 if i % 3 == 0 else None
         s["ftarget"] = ["call", -2.0]
         s["gtol"] = ["call", 1e-6]
-        if i % 4 == 3:
-            s["jac"] = "2-point"
+        if i % 3 == 2:
+            s["jac"] = ["2-point", "cs", "none", "3-point"][(i // 3) % 4]
             s["box_kinds"] = ["lo", "up", "box", "free"]
+            if s["jac"] == "cs":
+                s["family"] = ["qp", "qp4", "qpcos"][(i // 12) % 3]     # analytic objectives (complex step)
         out.append(s)
     return out
 
